@@ -69,6 +69,8 @@ def gen_case(rng, i):
     Mt, c0, lbv, ubv = gen.sys_arrays(s)
     m_, n = Mt.shape
     N = int(rng.integers(1, 7))
+    if i % 120 == 59:
+        N = int(rng.integers(128, 260))        # many targets in one call (internal fast paths / presolves above a size)
     T, cls = [], []
     finite = ubkind == "finite"
     Z = oracles.Zonotope(Mt, c0, lbv, ubv) if finite else None
